@@ -1879,6 +1879,9 @@ def arms_gate(chk, prop, gate=None):
             arm_in_committed_table=_arm_text(committed, loop, req),
             translator_messages=tr_err.get((loop, req), []),
             theorems=mine)
+        detail["clause"] = (f"{ARM_LOOPS[loop]}, {ARM_REQS[req]}: the source's arm reads {detail['arm_as_read']} "
+                            f"(committed table: {detail['arm_in_committed_table']}); the model does something else"
+                            + (f"; translator: {'; '.join(tr_err[(loop, req)])}" if (loop, req) in tr_err else ""))
         if d.get("path") is not None and (loop, req) not in tr_err:
             detail["request_sequence"] = d["path"] + [ARM_REQS[req] if req < 5 else
                                                       ("(terminate_child is entered: a slow-timeout termination or a "
